@@ -124,9 +124,17 @@ def pretty(evs):
 def judge(ctx, path, tag, open_devs):
     """validate one recorded batch; classify every rejected history"""
     hs = load_histories(path)
-    for h, evs in hs.items():
-        if any(e["ev"] == "hang" for e in evs):
-            raise vlib.Inconclusive("driver watchdog: a history of batch %s did not finish" % tag)
+    hung = [h for h, evs in hs.items() if any(e["ev"] == "hang" for e in evs)]
+    for h in hung:
+        # a request that never answers has no linearization; the driver stops at the first one
+        ev = [e for e in hs[h] if e["ev"] == "hang"][0]
+        ctx.deviation(None, "a request of history %d (%s batch) did not return within the watchdog time: %s" % (h, tag, ev.get("pending")),
+                      dict(kind="hang", batch=tag, history=h, pending=ev.get("pending"), stacks=ev.get("stacks", "")[:8000]))
+        del hs[h]
+    if hung:
+        clean = os.path.join(ctx.work, "clean-%s.ndjson" % tag)
+        write_histories(clean, hs, sorted(hs))
+        path = clean
     acc = lin_check(ctx, path, "lin-" + tag)
     ids = sorted(hs)
     rej = [h for h in ids if h not in acc]
@@ -227,17 +235,34 @@ def run(ctx):
     futs = [pool.submit(run_strict, a) for a in strict] + [pool.submit(run_witness, a) for a in witness]
 
     # ---------------------------------------------------------------- 2. record histories on the real gateway
-    plan = [("counter", 2400), ("conc", 2400), ("counter3", 1200), ("small", 1200)] if thorough else [("counter", 260), ("conc", 200)]
+    plan = [("fresh", 3000), ("counter", 1500), ("conc", 2400), ("small", 1200)] if thorough else [("fresh", 600), ("counter", 160), ("conc", 200)]
     files = []
     for i, (prof, n) in enumerate(plan):
         tf = os.path.join(ctx.work, "hist-%s.ndjson" % prof)
-        ctx.run_driver(binary, ["run", tf, str(n), prof], timeout=3600, env={"VERIF_SEED": str(ctx.seed * 1000 + i)})
+        p = ctx.run([binary, "run", tf, str(n), prof], timeout=5400, env={"VERIF_SEED": str(ctx.seed * 1000 + i)})
+        if p.returncode != 0:
+            err = p.stderr or ""
+            crash = [l for l in err.splitlines() if l.startswith(("fatal error:", "panic:", "unexpected fault", "SIGSEGV")) or "[signal " in l]
+            if p.returncode == 2 and crash:
+                # the Go runtime killed the process that hosts the gateway: an observation about the code under test
+                i0 = err.find(crash[0])
+                ctx.deviation(None, "the server process crashed while serving concurrent requests (%s profile): %s" % (prof, crash[0]),
+                              dict(kind="crash", profile=prof, stderr=err[i0:i0 + 6000]))
+                if os.path.exists(tf):
+                    os.remove(tf)
+                continue
+            raise vlib.Inconclusive("driver lin run %s exited %d:\n%s" % (prof, p.returncode, err[-3000:]))
         files.append((prof, tf))
 
     # ---------------------------------------------------------------- 3. judge them
     judged = {}
     for prof, tf in files:
         judged[prof] = judge(ctx, tf, prof, open_devs)
+
+    ctx.cov["rule"] = ("cases = recorded concurrent client histories (3-4 clients x 3-5 requests on 1-2 shared keys, three swamp "
+                       "configurations) each judged by TLC against the atomic model; non-trivial = at least two clients issued "
+                       "requests, distinct by request sequence and responses; plus exhaustive TLC runs of the step-level design")
+    ctx.cov["exhaustive"] = True
 
     if ctx.extra.get("rejected_not_triaged") and not ctx.violations:
         raise vlib.Inconclusive("%d rejected histories were not triaged" % ctx.extra["rejected_not_triaged"])
@@ -265,6 +290,8 @@ def run(ctx):
     pool.shutdown()
 
     # ---------------------------------------------------------------- 4. binding self-test
+    if "counter" not in judged:
+        return        # the recording of that batch crashed (already a violation)
     hs, acc = judged["counter"]
     cands = [h for h in sorted(acc) if sum(1 for e in hs[h] if e["ev"] == "ret" and e["st"] == "INC") >= 2]
     if not cands:
@@ -303,7 +330,3 @@ def run(ctx):
     if acc_bad or exp_bad:
         raise vlib.Inconclusive("binding self-test failed: corrupted histories accepted (strict %s, as-built %s)" % (sorted(acc_bad), sorted(exp_bad)))
 
-    ctx.cov["rule"] = ("cases = recorded concurrent client histories (3-4 clients x 3-5 requests on 1-2 shared keys, three swamp "
-                       "configurations) each judged by TLC against the atomic model; non-trivial = at least two clients issued "
-                       "requests, distinct by request sequence and responses; plus exhaustive TLC runs of the step-level design")
-    ctx.cov["exhaustive"] = True
